@@ -1,9 +1,165 @@
-(* C14 -- placeholder while the harness is being built; replaced by the property theorems. *)
+(* C14 -- Probed system description and derived machine model match the machine.
+   This file holds the property theorems only; each is closed by `exact` of a lemma of Proofs/Probe.v or
+   Proofs/ProbeMachine.v.  The model (Model/Probe.v) calls the bit-field / stride / slice expressions, the
+   struct format strings, the enum members and the sark.struct field tables regenerated from /repo into
+   Generated/GenProbe.v, so these theorems are re-checked against the current text of get_chip_info,
+   get_p2p_routing_table, get_iobuf_bytes, get_router_diagnostics and against the live constants.
+   The machine side (Spec/Probe.v) is written from the SC&MP / SARK documentation with every constant
+   spelled out.
+
+   Not proved here (carried by the correspondence run and the independent oracle on every run): the slicing
+   of the vcpu block by get_processor_status and the parsing of the two sver encodings. *)
 From Coq Require Import ZArith String List Bool.
-Require Import Rig.Generated.GenProbe Rig.Model.Base Rig.Model.Probe.
+Require Import Rig.Generated.GenProbe Rig.Model.Base Rig.Model.Probe Rig.Spec.Probe
+               Rig.Proofs.Probe Rig.Proofs.ProbeMachine.
 Import ListNotations.
 Open Scope Z_scope.
 
-Example C14_info_format_parses :
-  parse_format ci_data_format = Some (repeat (FInt 1) 18 ++ [FInt 2; FInt 4]).
-Proof. reflexivity. Qed.
+(* The `info` reply: encoding a chip's state per the documented layout and decoding it with get_chip_info
+   is the identity -- every field at its full width (5-bit core count, 6 link bits, 11-bit router block,
+   Ethernet flag, 32-bit memory figures, 18 state bytes, 16-bit Ethernet chip, 4 address bytes), no field
+   disturbing another. *)
+Theorem C14_chip_info_roundtrip :
+  forall cs, cs_valid cs -> decode_info (encode_info cs) = Ok (truth_info cs).
+Proof. exact chip_info_roundtrip. Qed.
+
+(* The P2P table: for every width, height <= 255 (what the 8-bit fields of sv->p2p_dims can hold) and every
+   table content, reading the linear hardware table (eight 3-bit entries per word, entry of (x, y) =
+   number 256 x + y) column by column returns exactly the entries of the width x height area. *)
+Theorem C14_p2p_roundtrip :
+  forall rd route w h,
+    0 <= w < 256 -> 0 <= h < 256 -> routes_valid route -> reads_dims rd w h -> reads_p2p rd route ->
+    p2p_table rd = Ok (p2p_truth route w h).
+Proof. exact p2p_roundtrip. Qed.
+
+(* get_system_info reports exactly the chips with a route and an answer, each with its true state, in
+   the order of the table; width and height are one more than the largest routed coordinate. *)
+Theorem C14_system_info_exact :
+  forall rd route answers w h,
+    0 <= w < 256 -> 0 <= h < 256 -> routes_valid route -> reads_dims rd w h -> reads_p2p rd route ->
+    answers_valid answers -> (exists c, has_route route w h c) ->
+    exists si, system_info rd (info_of_machine answers) = Ok si /\
+      si_chips si = live_chips route answers w h /\
+      (forall c, has_route route w h c -> fst c < si_width si /\ snd c < si_height si) /\
+      (exists c, has_route route w h c /\ si_width si = fst c + 1) /\
+      (exists c, has_route route w h c /\ si_height si = snd c + 1).
+Proof. exact system_info_exact. Qed.
+
+Theorem C14_reported_chips_exactly :
+  forall route answers w h c ci,
+    In (c, ci) (live_chips route answers w h) <->
+    (has_route route w h c /\ exists cs, answers c = Some cs /\ ci = truth_info cs).
+Proof. exact In_live_chips. Qed.
+
+Theorem C14_reported_chips_distinct :
+  forall route answers w h, NoDup (map fst (live_chips route answers w h)).
+Proof. exact NoDup_live_chips. Qed.
+
+(* build_machine: the Machine contains exactly the described chips, machine[c] is the chip's core count and
+   free memory, a link is present iff it is among the chip's working links, dead_chips / dead_links are the
+   complements. *)
+Theorem C14_build_machine_exact :
+  forall si, si_wf si ->
+    let m := build_machine si in
+    pm_width m = si_width si /\ pm_height m = si_height si /\
+    (forall c, pm_has_chip m c = si_has si c) /\
+    (forall c ci, si_get si c = Some ci ->
+       pm_get m c = Ok (ci_cores ci, ci_free_sdram ci, ci_free_sram ci)) /\
+    (forall c, si_has si c = false -> pm_get m c = OtherError) /\
+    (forall c l, In l links_values ->
+       (pm_has_link m c l = true <-> exists ci, si_get si c = Some ci /\ In l (ci_links ci))) /\
+    (forall c, In c (pm_dead_chips m) <-> (in_bounds (si_width si) (si_height si) c /\ si_has si c = false)) /\
+    (forall c l, In (c, l) (pm_dead_links m) <->
+       exists ci, si_get si c = Some ci /\ In l links_values /\ ~ In l (ci_links ci)).
+Proof. exact build_machine_exact. Qed.
+
+(* build_core_constraints: on every described chip the reservations that bind there (global ones and the
+   chip's own) are non-empty ranges, no core lies in two of them, and their union is exactly the set of
+   cores that are not idle. *)
+Theorem C14_core_reservations_exact :
+  forall si,
+    NoDup (map fst (si_chips si)) ->
+    (forall c ci, In (c, ci) (si_chips si) -> Z.of_nat (length (ci_states ci)) <= 18) ->
+    forall c ci, si_get si c = Some ci ->
+    let rs := ranges_on c (build_core_constraints si) in
+    (forall r, In r rs -> 0 <= fst r < snd r) /\
+    (forall p, (cover_count p rs <= 1)%nat) /\
+    (forall p, (exists r, In r rs /\ fst r <= p < snd r) <-> core_busy ci p).
+Proof. exact core_reservations_exact. Qed.
+
+(* The whole chain, from the machine to the place-and-route model: nothing is ever placed on a dead or
+   unresponsive chip, on a busy core or over a missing link. *)
+Theorem C14_probe_end_to_end :
+  forall rd route answers w h si,
+    0 <= w < 256 -> 0 <= h < 256 -> routes_valid route -> reads_dims rd w h -> reads_p2p rd route ->
+    answers_valid answers -> (exists c, has_route route w h c) ->
+    system_info rd (info_of_machine answers) = Ok si ->
+    let m := build_machine si in
+    let cons := build_core_constraints si in
+    (forall c, pm_has_chip m c = true <-> (has_route route w h c /\ exists cs, answers c = Some cs)) /\
+    (forall c cs, has_route route w h c -> answers c = Some cs ->
+       si_get si c = Some (truth_info cs) /\
+       pm_get m c = Ok (cs_cores cs, cs_sdram cs, cs_sram cs) /\
+       (forall l, In l [0; 1; 2; 3; 4; 5] -> (pm_has_link m c l = true <-> Z.testbit (cs_linkmask cs) l = true)) /\
+       cassoc c (target_lengths si) = Some (cs_rtr cs) /\
+       (forall r, In r (ranges_on c cons) -> 0 <= fst r < snd r) /\
+       (forall p, (cover_count p (ranges_on c cons) <= 1)%nat) /\
+       (forall p, (exists r, In r (ranges_on c cons) /\ fst r <= p < snd r) <-> machine_busy cs p)) /\
+    (forall k, In k cons -> snd k = None \/ exists c, snd k = Some c /\ pm_has_chip m c = true).
+Proof. exact probe_end_to_end. Qed.
+
+(* IOBUF: along an (acyclic, hence finite) chain of blocks the walk returns the concatenation of the
+   `length`-prefixes of the blocks' buffers; one unit of fuel per block suffices, so the model's bound is
+   no hidden restriction. *)
+Theorem C14_iobuf_chain :
+  forall rd size blocks a fuel,
+    chain_at rd size a blocks -> (length blocks < fuel)%nat ->
+    iobuf_walk fuel rd size a = Ok (chain_text blocks).
+Proof. exact iobuf_chain. Qed.
+
+(* ... and the acyclicity hypothesis is necessary: on a block that points to itself the loop never ends. *)
+Theorem C14_iobuf_cycle_diverges :
+  forall rd size a b,
+    a <> 0 -> is_word a -> is_word (b_time b) -> is_word (b_ms b) -> is_word (b_length b) ->
+    0 <= size -> Z.of_nat (length (b_payload b)) = size -> b_length b <= size ->
+    rd a (size + 16) = block_bytes b a ->
+    forall fuel, iobuf_walk fuel rd size a = OutOfFuel.
+Proof. exact iobuf_cycle_diverges. Qed.
+
+(* Router counters: the sixteen words at 0xe1000300 come back unchanged. *)
+Theorem C14_router_counters_roundtrip :
+  forall (rd : reader) ws,
+    length ws = 16%nat -> Forall is_word ws ->
+    rd 3774874368 64 = flat_map (le_encode 4) ws ->
+    router_diagnostics rd = Ok ws.
+Proof. exact router_counters_roundtrip. Qed.
+
+(* Non-vacuity. *)
+Example C14_chip_state_satisfiable : cs_valid ex_cs.
+Proof. exact ex_cs_valid. Qed.
+
+Example C14_chip_state_decodes :
+  option_map flat_ci (okopt (decode_info (encode_info ex_cs))) =
+  Some ([17; 17; 7; 15; 15; 7; 7; 15; 11; 15; 15; 15; 15; 15; 15; 15; 15; 15; 2; 4; 0; 2; 3; 5;
+         119275492; 22240; 2047; 1; 15] ++ chars "192.168.240.253" ++ [8; 0]).
+Proof. exact ex_cs_decodes. Qed.
+
+Example C14_machine_hypotheses_satisfiable :
+  routes_valid ex_route /\ reads_dims ex_rd 2 3 /\ reads_p2p ex_rd ex_route /\ answers_valid ex_answers /\
+  (exists c, has_route ex_route 2 3 c).
+Proof. exact ex_machine_hypotheses. Qed.
+
+Example C14_machine_probed :
+  option_map (fun si => (si_width si, si_height si, map fst (si_chips si)))
+             (okopt (system_info ex_rd (info_of_machine ex_answers)))
+  = Some (2, 3, [(0, 0); (0, 1); (0, 2); (1, 0)]).
+Proof. exact ex_machine_probed. Qed.
+
+Example C14_description_satisfiable :
+  si_wf ex_si /\ build_core_constraints ex_si = [((0, 1), None); ((3, 5), Some (0, 0))].
+Proof. exact (conj ex_si_wf ex_si_constraints). Qed.
+
+Example C14_iobuf_chain_satisfiable :
+  chain_at ex_iobuf_rd 4 1611661312 [ex_b1; ex_b2] /\
+  iobuf_walk 3 ex_iobuf_rd 4 1611661312 = Ok [104; 105; 10; 111; 107; 33; 10].
+Proof. exact (conj ex_chain ex_chain_walk). Qed.
